@@ -222,9 +222,14 @@ func TestC13(t *testing.T) {
 		variant := ev.ShardNo()*runs + run
 		u := newCDP(t, cdpOpts{variant: variant})
 		rnd := rng("C13", run)
-		cfg := cdpCfg{priceMoves: true, bids: true, lockers: true, unsolicited: true, liquidateMsg: true, reserve: variant%2 == 1, govChanges: variant%3 == 2}
+		cfg := cdpCfg{priceMoves: true, bids: true, lockers: true, unsolicited: true, liquidateMsg: true, reserve: variant%2 == 1, govChanges: variant%3 != 0}
 		r := newCdpRunner(u, rnd, rec, cfg, newC13Mon(u, rec))
 		r.run(cdpSteps())
+		// one run in three ends with the emergency shutdown of one app (hand-back of auctioned vaults books the
+		// collected penalty, the collector's funds of the app go to redemption)
+		if variant%3 == 1 {
+			r.esmPhase(u.cdpApps[variant%len(u.cdpApps)])
+		}
 		if run == 0 {
 			rec.Sample(map[string]interface{}{"variant": variant, "oplog_tail": r.tail(10)})
 		}
